@@ -2,6 +2,7 @@ package sim
 
 import (
 	"fmt"
+	"github.com/yaricom/goNEAT/v4/neat/genetics"
 )
 
 // C05 — structural and parametric mutations change exactly what they document.
@@ -13,7 +14,7 @@ func init() {
 		RealParts:  []string{"all ten mutators and mutateAllNonstructural, geneInsert / nodeInsert, the innovation lookup", "the real Population as innovation record in about half of the histories", "math/rand seeded from the tape per call"},
 		StubParts:  []string{"reference innovation registry in the other half", "fitness during the preparatory epochs"},
 		Assumes:    []string{"what the statement leaves open is not judged: the genome after a failed add-node / add-link / connect-sensors call is only counted (observation counters)"},
-		ProbeNames: []string{"probe.addnode.ok", "probe.addnode.recurrent_gene_split", "probe.addlink.ok", "probe.addlink.recurrent", "probe.connect.ok", "probe.toggle.refused_last_enabled", "probe.reenable.changed", "probe.innovation_reused", "probe.addnode.noop", "probe.addlink.noop", "probe.connect.noop"},
+		ProbeNames: []string{"probe.addnode.ok", "probe.addnode.recurrent_gene_split", "probe.addlink.ok", "probe.addlink.recurrent", "probe.connect.ok", "probe.toggle.refused_last_enabled", "probe.reenable.changed", "probe.innovation_reused", "probe.record_planted", "probe.addnode.noop", "probe.addlink.noop", "probe.connect.noop"},
 	})
 }
 
@@ -365,6 +366,49 @@ func scenarioC05(c *RunCtx) {
 			// of the same innovation made on its sibling
 			a := t.Draw("twin.of", len(env.Pool))
 			env.Adopt(CloneGenome(env.Pool[a], env.NextId), env.Fit[a], 8)
+			continue
+		}
+		if env.UseReg == 1 && t.Chance("plant-record", 1, 6) {
+			// a record of an innovation made elsewhere (another organism of the generation), built with the public
+			// constructors: the split of one of the operand's enabled genes (recurrent-flagged ones first), or a link
+			// between two of its nodes
+			g := env.Pool[t.Draw("record.of", len(env.Pool))]
+			var cands []*genetics.Gene
+			for _, gn := range g.Genes {
+				if gn.IsEnabled && gn.Link.IsRecurrent {
+					cands = append(cands, gn)
+				}
+			}
+			if len(cands) == 0 || t.Chance("record.any", 1, 3) {
+				for _, gn := range g.Genes {
+					if gn.IsEnabled {
+						cands = append(cands, gn)
+					}
+				}
+			}
+			st := env.Stub
+			if len(cands) > 0 && t.Chance("record.node", 2, 3) {
+				gn := cands[t.Draw("record.gene", len(cands))]
+				st.Inns = append(st.Inns, *genetics.NewInnovationForNode(gn.Link.InNode.Id, gn.Link.OutNode.Id, st.NextInn+1, st.NextInn+2, st.NextNode+1, gn.InnovationNum))
+				st.NextInn += 2
+				st.NextNode++
+				c.Count("probe.record_planted")
+				c.Op("record planted: split of gene #%d %d->%d (recurrent=%t)", gn.InnovationNum, gn.Link.InNode.Id, gn.Link.OutNode.Id, gn.Link.IsRecurrent)
+			} else if len(g.Nodes) > 0 {
+				in := g.Nodes[t.Draw("record.in", len(g.Nodes))]
+				out := g.Nodes[t.Draw("record.out", len(g.Nodes))]
+				rec := t.Chance("record.rec", 1, 3)
+				if !out.IsSensor() {
+					if rec {
+						st.Inns = append(st.Inns, *genetics.NewInnovationForRecurrentLink(in.Id, out.Id, st.NextInn+1, 0.5, 0, true))
+					} else {
+						st.Inns = append(st.Inns, *genetics.NewInnovationForLink(in.Id, out.Id, st.NextInn+1, 0.5, 0))
+					}
+					st.NextInn++
+					c.Count("probe.record_planted")
+					c.Op("record planted: link %d->%d (recurrent=%t)", in.Id, out.Id, rec)
+				}
+			}
 			continue
 		}
 		op, a, _ := env.DrawOp(muts)
